@@ -226,7 +226,7 @@ prop("C14",
           "the OPEN on the wire must equal Open!OpenMsg byte for byte, or no OPEN at all when unrepresentable")
 
 prop("C13",
-     scripts=lambda tier, rnd: S.admission() + S.multi_listener() + S.pm_busy() + [x for x in S.pm_gates() if "err-connect" in x["id"]] + S.damping_exact() + sample(S.inbound_drop(), rnd, 22 if tier == "thorough" else 8),
+     scripts=lambda tier, rnd: S.admission() + S.multi_listener() + S.pm_busy() + [x for x in S.pm_gates() if "err-connect" in x["id"]] + S.damping_exact() + [x for x in S.damping_matrix() if "-in" in x["id"] and ("badopen" in x["id"] or "hdr-" in x["id"] or "unexp" in x["id"] or "veto" in x["id"] or "handler" in x["id"] or "holdexp" in x["id"])] + sample(S.inbound_drop(), rnd, 22 if tier == "thorough" else 8),
      mc=lambda tier: [mc_pair(["openLo", "ka", "notif"], conns=2, msgs=2)] if tier == "quick" else
      [mc_pair(["openLo", "ka", "notif", "cease"], conns=2, msgs=2, dials=2), mc_pair(["openHi", "ka", "upd"], conns=2, msgs=2, passive=True)],
      nontrivial=lambda s, r: any(e["e"] == "acc" for e in syscheck.events_of(r)),
